@@ -803,7 +803,13 @@ class Lowerer:
             if lv:
                 lname, caps = lv
                 self.cur.callees.add(lname)
-                return '%s(%s)' % (lname, ', '.join([c[2] for c in caps] + [self.arg(a) for a in args[1:]]))
+                lparams = getattr(self, 'lambda_params', {}).get(lname, [])
+                cargs = []
+                for i, a in enumerate(args[1:]):
+                    self.default_arg_src = lparams[i] if a.get('kind') == 'CXXDefaultArgExpr' and i < len(lparams) else None     # a default argument of the lambda's own parameter
+                    cargs.append(self.arg(a))
+                self.default_arg_src = None
+                return '%s(%s)' % (lname, ', '.join([c[2] for c in caps] + cargs))
         f = self.ix.fn_by_id.get(rd['id'])
         a0 = args[0]; t0 = ct(a0)
         if f is not None:
@@ -1103,6 +1109,7 @@ class Lowerer:
         # captured variables: find DeclRefExprs in the body that refer to enclosing-function variables
         body = [c for c in call['inner'] if c.get('kind') == 'CompoundStmt'][0]
         params = [p for p in call['inner'] if p.get('kind') == 'ParmVarDecl']
+        self.lambda_params = getattr(self, 'lambda_params', {}); self.lambda_params[lname] = params
         local_ids = set(p['id'] for p in params)
         collect_decl_ids(body, local_ids)
         captured = []
